@@ -20,7 +20,7 @@ ID = 'C05'
 LEVEL = 'exploration'
 RULE = ('Valid programs from the typed generator G (plus three helper '
         'declarations: a record type, a SUB and a FUNCTION) x a catalogue of '
-        '84 rule violations (type mismatch in assignment / operator / '
+        '90 rule violations (type mismatch in assignment / operator / '
         'condition / argument / CASE / FOR bound, undefined and duplicate '
         'label, duplicate definition, argument count, array rank, undefined '
         'type / field / procedure, misplaced EXIT / ELSE / ELSEIF / CASE / '
@@ -29,7 +29,9 @@ RULE = ('Valid programs from the typed generator G (plus three helper '
         'statement of every body, and the THEN branch of single-line IFs) x '
         'O0-O3 x {-g, no -g}; quick tier: 4 drawn (site, fault) pairs per '
         'program, thorough tier: additionally all faults at one site and '
-        'one fault at all sites.  Non-trivial: the site is inside a '
+        'one fault at all sites.  Both tiers also sweep one fixed host '
+        'program completely: every site x every applicable fault (quick: '
+        'at O0 and O2-g).  Non-trivial: the site is inside a '
         'procedure, a nested block or a single-line IF, or after a '
         'declaration.  Distinct by faulty text.')
 ASSUMPTIONS = [
@@ -131,6 +133,21 @@ CATALOGUE = [
       at=1),
     F('dim_bound_string', ['DIM zzqn1("a") AS INTEGER'], TM),
     F('locate_string', ['LOCATE "a", 1'], TM, ifline=True),
+    # -- the same faults on an operand in the middle of an operator chain
+    F('array_rank_in_chain', ['DIM zzqn4(3) AS INTEGER',
+                              'zzqo4% = 1 + zzqn4(1, 2) + 2'],
+      'WRONG_NUMBER_OF_DIMENSIONS', at=1),
+    F('undefined_field_in_chain', ['DIM zzqr4 AS zzqrec',
+                                   'zzqo5% = 1 + zzqr4.nofield + 2'],
+      'ELEMENT_NOT_DEFINED', at=1),
+    F('function_argument_type_in_chain', ['zzqg4% = 1 + zzqf%("s") + 2'],
+      TM, ifline=True),
+    F('array_index_string_in_chain', ['DIM zzqn5(3) AS INTEGER',
+                                      'zzqo6% = 2 * zzqn5("a") * 3'], TM,
+      at=1),
+    F('operator_mixed_in_chain', ['zzqc5% = 1 + 2 + "a"'], TM, ifline=True),
+    F('operator_mixed_in_chain_2', ['zzqc6$ = "a" + "b" + 3 + "c"'], TM,
+      ifline=True),
     # -- argument count
     F('sub_too_few_arguments', ['CALL zzqs(1)'], 'ARGUMENT_COUNT_MISMATCH',
       ifline=True),
@@ -372,11 +389,11 @@ def line_of(text, loc):
     return text.count('\n', 0, loc) + 1
 
 
-def outcome(text):
+def outcome(text, configs=CONFIGS):
     """Per configuration: ('accepted',) | ('rejected', category, loc) |
     ('host', bucket)."""
     out = []
-    for O, g in CONFIGS:
+    for O, g in configs:
         r = X.compile_one(text, O, g)
         if r.kind == 'accepted':
             out.append(('accepted',))
@@ -392,7 +409,7 @@ def outcome(text):
     return out
 
 
-def judge_fault(base, style, path, ctx, fault):
+def judge_fault(base, style, path, ctx, fault, configs=CONFIGS):
     """-> (failures, info) for one injection."""
     p2, raws, enclosing = inject(base, path, fault, ctx)
     r = render.render(p2, style)
@@ -405,8 +422,8 @@ def judge_fault(base, style, path, ctx, fault):
         if end:
             want_lines.add(end)
     failures = []
-    outs = outcome(text)
-    for (O, g), o in zip(CONFIGS, outs):
+    outs = outcome(text, configs)
+    for (O, g), o in zip(configs, outs):
         cfgname = X.cfg_name((O, g))
         if o[0] == 'timeout':
             continue
@@ -546,3 +563,77 @@ def shrink(failure, cfg):
         obj['path'] = d['path']
         obj['fault'] = d['fault']
     return {'bucket': failure['bucket'], 'detail': d, 'case': obj}
+
+
+# ---------------------------------------------------------------------------
+# Complete sweep on one fixed host program: every site x every applicable
+# fault (both tiers; the quick tier compiles at O0 and O2-g only).
+def N_(v):
+    return A.Num('%', v, str(v))
+
+
+def V_(name):
+    return A.LV(name, [], [], name[-1])
+
+
+def host_program():
+    pr = lambda *items: A.Print(list(items))
+    return A.Program([
+        A.Dim('dim', [A.Decl('h1', '%', None, True)]),
+        A.Assign(V_('h2%'), N_(1)),
+        A.For(V_('hi%'), N_(1), N_(2), None, [pr(V_('hi%'))]),
+        A.If([(A.Bin('>', V_('h2%'), N_(0), '%'), [pr(N_(1))])],
+             [pr(N_(2))]),
+        A.IfLine(V_('h2%'), [pr(N_(3))], None),
+        A.Select(V_('h2%'), [([('v', N_(1))], [pr(N_(4))])], None),
+        A.Do('loop_until', A.Bin('>', V_('h2%'), N_(2), '%'),
+             [A.Assign(V_('h2%'), A.Bin('+', V_('h2%'), N_(1), '%'))]),
+        A.While(A.Bin('<', V_('h2%'), N_(5), '%'),
+                [A.Assign(V_('h2%'), A.Bin('+', V_('h2%'), N_(1), '%'))]),
+        A.CallSub('hs', [N_(1)]),
+        pr(A.FCall('hf%', [N_(2)], '%')),
+        A.Proc('sub', 'hs', [A.Param('ha%', '%')], False,
+               [pr(V_('ha%')),
+                A.For(V_('hj%'), N_(1), N_(2), None, [pr(V_('hj%'))])]),
+        A.Proc('function', 'hf%', [A.Param('hb%', '%')], False,
+               [A.If([(A.Bin('>', V_('hb%'), N_(0), '%'), [pr(N_(5))])],
+                     None),
+                A.RetAssign('hf%', V_('hb%'), '%')], '%'),
+    ])
+
+
+def items(cfg):
+    base = with_helpers(host_program())
+    out = []
+    for k, (path, ctx) in enumerate(sites_of(base)):
+        if path[0] < len(HELP_TOP) and len(path) == 1 and path[0] > 0:
+            continue
+        for f in CATALOGUE:
+            if applicable(f, ctx):
+                out.append((k, f['name']))
+    return out
+
+
+QUICK_CONFIGS = ((0, False), (2, True))
+
+
+def check_item(item, cfg):
+    k, fname = item
+    base = with_helpers(host_program())
+    path, ctx = sites_of(base)[k]
+    f = BY_NAME[fname]
+    configs = QUICK_CONFIGS if cfg['tier'] == 'quick' else CONFIGS
+    fs, text = judge_fault(base, render.PLAIN, path, ctx, f, configs)
+    seen = {}
+    for b, d in fs:
+        seen.setdefault('sweep:' + b, dict(d, path=list(path), fault=fname))
+    enc = None
+    if seen:
+        enc = cases.encode_case(host_program(), {}, render.PLAIN,
+                                {'picks': [], 'path': list(path),
+                                 'fault': fname})
+    return {'key': digest([text, 'sweep']), 'nontrivial': nontrivial_ctx(ctx),
+            'classes': ['sweep', 'rule:' + fname, 'site:' + ctx['parent'],
+                        'routine:' + ctx['routine']],
+            'failures': [{'bucket': b, 'detail': d, 'case': enc}
+                         for b, d in seen.items()]}
